@@ -33,8 +33,10 @@ class Query:
     def __init__(self, key, harness, entry, defines=None, lowering='scalar', libs=(), models=(), stubs=None,
                  unwind=8, backends=('minisat', 'kissat', 'cvc5int'), cap=120, expect='pass', abort_fails=False,
                  extra=(), validate=False, witness=True, canary_of=None, externs=(), noops=(), sample=None,
-                 unwindset=(), native_sweep=200, object_bits=14, cflags=(), leak=False, finding_key=None, fp_uf=False):
+                 unwindset=(), native_sweep=200, object_bits=14, cflags=(), leak=False, finding_key=None, fp_uf=False, mdefs=None, native_libs=()):
+        self.native_libs = list(native_libs)
         self.fp_uf = fp_uf
+        self.mdefs = dict(mdefs or {})
         self.key = key
         self.harness = harness
         self.entry = entry
@@ -280,8 +282,10 @@ def prepare(q, work):
     qd = os.path.join(work, 'q', q.slug())
     os.makedirs(qd, exist_ok=True)
     lls = []
-    for p in q.libs + q.models:
+    for p in q.libs:
         lls.append(compile_ll(work, src_path(p), q.lowering))
+    for p in q.models:
+        lls.append(compile_ll(work, src_path(p), q.lowering, q.mdefs))
     hpath = os.path.join(HERE, 'harness', q.harness)
     lls.append(compile_ll(work, hpath, q.lowering, q.defines, tuple(q.cflags)))
     linked = os.path.join(qd, 'all.ll')
@@ -345,7 +349,7 @@ def native_build(q, work, prep, sanitize=False):
     use = {'USE_' + v: 1 for v in q.stubs.values()}
     d.update(use)
     hobj = compile_obj(work, hpath, q.lowering, d, tuple(q.cflags))
-    mobjs = [compile_obj(work, src_path(p), q.lowering, dict(use, SYMX_NATIVE=1)) for p in q.models]
+    mobjs = [compile_obj(work, src_path(p), q.lowering, dict(use, SYMX_NATIVE=1, **q.mdefs)) for p in q.models]
     # every global function the harness / the models define overrides the library's definition of the same name:
     # weaken those definitions in the library objects (objcopy -W) so that the harness-side stub wins at link time
     defined = set()
@@ -356,7 +360,7 @@ def native_build(q, work, prep, sanitize=False):
             if len(parts) == 3 and parts[1] in ('T', 'W'):
                 defined.add(parts[2])
     objs = []
-    for p in q.libs:
+    for p in q.libs + q.native_libs:
         o = compile_obj(work, src_path(p), q.lowering)
         r = run(['nm', '--defined-only', '-g', o])
         clash = sorted(set(l.split()[2] for l in r.stdout.split('\n') if len(l.split()) == 3 and l.split()[1] == 'T') & defined)
@@ -547,7 +551,7 @@ def run_property(pid, spec, tier, seed):
     units = set()
     nat_units = set()
     for q in queries:
-        for p in q.libs + q.models:
+        for p in q.libs:
             units.add((src_path(p), q.lowering))
     with ThreadPoolExecutor(NCPU) as ex:
         futs = [ex.submit(compile_ll, work, p, l) for p, l in units]
